@@ -8,6 +8,6 @@ CONSTANTS
   Auxes = {1, 2}
   Us = {0, 1}
   MaxOps = 1
-  Ops = {"recv", "check"}
+  Ops = {"recv", "check", "decode"}
 INVARIANTS TypeOK
-PROPERTIES SameSlot SameNetwork Differ LogFromInputs RepeatIsSilent
+PROPERTIES SameSlot SameNetwork Differ LogFromInputs RepeatIsSilent GarbageIsNoEvidence
